@@ -642,6 +642,9 @@ func trimRepo(s, repo string) string { return strings.TrimPrefix(s, repo+"/") }
 // the value returned (no deferred call of this code base assigns results,
 // which is checked by deferAssignsResults).
 func retVal(r *ssa.Return, i int) ssa.Value {
+	if i < 0 || i >= len(r.Results) {
+		return nil
+	}
 	v := r.Results[i]
 	ld, ok := v.(*ssa.UnOp)
 	if !ok || ld.Op != token.MUL {
